@@ -29,13 +29,17 @@ def hexhash(rng, hs, pool=None):
 
 def gen_names(rng, n):
     """n distinct NUL-free names, rich in shared prefixes, bytewise sortable"""
-    style = rng.choice(["heads", "mixed", "long", "deep"])
+    style = rng.choice(["heads", "mixed", "long", "deep", "utf8"])
     names = set()
     while len(names) < n:
         if style == "heads":
             names.add("refs/heads/%s%04d" % (rng.choice(["", "b", "branch-", "x/"]), rng.randrange(10 * n + 10)))
         elif style == "long":
             names.add("refs/heads/" + "p" * rng.choice([1, 5, 20, 40]) + "%05d" % rng.randrange(10 * n + 10))
+        elif style == "utf8":
+            # multi-byte characters whose encodings share their leading bytes: keys that first differ INSIDE a character
+            names.add("refs/heads/" + rng.choice(["caf\u00e9", "caf\u00e8", "caf\u00ea", "na\u00efve", "\u65e5\u672c", "\u65e5\u6728", "\u65e6", "x"]) + "%02d" % rng.randrange(n + 3)
+                      + rng.choice(["", "\u00e9", "\u00e8"]))
         elif style == "deep":
             names.add("/".join(rng.choice(["a", "b", "cc", "d0"]) for _ in range(rng.randint(1, 5))) + "%03d" % rng.randrange(5 * n + 5))
         else:
@@ -99,10 +103,16 @@ def gen_case(rng, cid, focus):
             logs.append({"n": n, "i": i, "del": False, "old": rng.choice(["", hexhash(rng, hs, pool)]), "new": rng.choice(["", hexhash(rng, hs, pool)]),
                          "user": rng.choice(["", "A U Thor", "x"]), "email": rng.choice(["", "a@example.com"]),
                          "time": rng.choice([0, 1, 1600000000, (1 << 31) - 1] + VB), "tz": rng.choice([0, 60, -480, 330, -1, 32767, -32768]), "msg": msg})
-    maxrec = max([len(r["n"]) + 2 * hs + len(r["v"][1] if r["v"][0] == "s" else "") + 16 for r in refs] +
-                 [len(l["n"]) + 2 * hs + 9 + len(l.get("msg", "")) + len(l.get("user", "")) + len(l.get("email", "")) + 30 for l in logs] + [64])
+    blen = lambda x: len(x.encode("utf-8"))
+    maxrec = max([blen(r["n"]) + 2 * hs + blen(r["v"][1] if r["v"][0] == "s" else "") + 16 for r in refs] +
+                 [blen(l["n"]) + 2 * hs + 9 + blen(l.get("msg", "")) + blen(l.get("user", "")) + blen(l.get("email", "")) + 30 for l in logs] + [64])
     sizes = [b for b in (96, 128, 192, 256, 384, 512, 1024, 4096) if b >= maxrec + 60]
     blocksize = rng.choice(sizes + [0, 0]) if sizes else 0
+    # a record larger than a whole block must be refused by the writer (and must not disturb its neighbours)
+    if blocksize and blocksize <= 1024 and len(refs) >= 3 and rng.random() < 0.12:
+        k = rng.randrange(1, len(refs))
+        refs[k]["v"] = ["s", "refs/heads/" + "T" * (blocksize + rng.randint(1, 40)), ""]
+        refs[k]["oversize"] = True
     case = {"id": cid, "blocksize": blocksize, "restart": rng.choice([0, 1, 2, 3, 5, 16]), "unaligned": rng.random() < 0.35,
             "skipindex": rng.random() < 0.3, "hash": hash_, "exact": exact, "min": mn, "max": mx, "refs": refs, "logs": logs,
             "seekrefs": [], "seeklogs": [], "oids": [], "universe": [], "layout": True}
@@ -152,6 +162,13 @@ def big_case():
     refs = [{"n": "r%05d" % j, "i": 1, "v": ["d", "", ""]} for j in range(66000)]
     return {"id": "big-restart-cap", "blocksize": 4 << 20, "restart": 1, "unaligned": False, "skipindex": True, "hash": "sha1", "exact": False,
             "min": 1, "max": 1, "refs": refs, "logs": [], "seekrefs": [], "seeklogs": [], "oids": [], "universe": [], "layout": False, "big": True}
+
+
+def big_case2():
+    """blocks above 64 KiB, several of them, unpadded: 15000 refs with 128 KiB blocks"""
+    refs = [{"n": "refs/heads/b%06d" % j, "i": 2, "v": ["v", "%040x" % (j * 2654435761 % (1 << 160)), ""]} for j in range(15000)]
+    return {"id": "big-large-blocks", "blocksize": 128 << 10, "restart": 16, "unaligned": True, "skipindex": True, "hash": "sha1", "exact": False,
+            "min": 2, "max": 2, "refs": refs, "logs": [], "seekrefs": [], "seeklogs": [], "oids": [], "universe": [], "layout": False, "big": True}
 
 
 def signature(check, trace, line):
@@ -205,6 +222,7 @@ def run(pid, tier, merge=False):
             cases.append(kf_case())
         if pid in ("C01", "C14"):
             cases.append(big_case())
+            cases.append(big_case2())
         outs = run_cases(cases, drv, sc)
         byid = {o["id"]: o for o in outs}
         cbyid = {c["id"]: c for c in cases}
